@@ -341,7 +341,7 @@ Definition run_len (checks : bool) (op : list N) : list N :=
   opt_enc (option_map (fun l => [l]) (sel_len buf_params (nth0 op 0) (nth0 op 1) (nth0 op 2) (nth0 op 3))).
 
 Definition run_zigzag (w : N) (op : list N) : list N :=
-  let wz := Z.of_N w in
+  let wz := Z.of_N (if w =? 0 then 64 else w) in
   match nth0 op 0 with
   | 0 => (* to_int: result reported as w-bit two's complement *)
       [0; Z.to_N (to_int wz (Z.of_N (nth0 op 1)) mod 2 ^ wz)]
@@ -390,7 +390,7 @@ Definition run_dispatch (E : endian) (checks : bool) (op : list N) : list N :=
   let okind := match opk with 0 => OpRead | 1 => OpWrite | _ => OpLen end in
   let target : option code := if dk =? 1 then from_code_const (nth0 op 2) else Some c in
   let call := match dk with
-              | 0 => enum_call okind c
+              | 0 | 4 => enum_call okind c       (* 4 = CodesStatsWrapper around the enum *)
               | 1 => const_call okind (nth0 op 2)
               | 2 => func_call okind c
               | _ => factory_call c end in
